@@ -28,7 +28,7 @@ func init() {
 		ID:      "C05",
 		Level:   "other",
 		Explain: "Decides the link/count clause only: (P) along every path of every mutator of ast.BaseNode the change of childCount equals the number of nodes attached (SetParent(self)) minus the number detached (SetParent(nil)); a reset to zero happens only in the function that detaches every child in a loop over the child list; (L) on every path each x.next = y written is matched by y.prev = x (written on the same path or untouched because y was x's neighbour already) and vice versa; (D) a node is detached from its old parent before it is attached; (W) the raw link setters are called only inside package ast, so every other package can change the tree only through the checked mutators. Since Parse builds the tree exclusively through these mutators, ChildCount/Parent/sibling links agree with the child sequence of every parsed tree. Does NOT decide positions within the source, ordering of lines/segments, leftover bookkeeping nodes, legal placement of kinds, link nesting or heading/emphasis levels (values computed from the input).",
-		Rules:   append(append([]func(*World, *Report){}, treeRules...), ruleLevelsBounded, ruleStaleCursorModule, ruleLinkSearchComplete, ruleUnlinkedOpenerLeavesTree),
+		Rules:   append(append([]func(*World, *Report){}, treeRules...), ruleLevelsBounded, ruleStaleCursorModule, ruleLinkSearchComplete, ruleUnlinkedOpenerLeavesTree, ruleReplacementFromCurrentNode),
 	})
 	register(&Property{
 		ID:      "C13",
